@@ -406,6 +406,10 @@ func checkOps(caseNo int64) {
 	kinds := []string{"add", "update", "remove", "incr", "incr", "batch"}
 	for i := range ops {
 		ops[i] = op{Kind: kinds[rng.Intn(len(kinds))], Key: rng.Intn(8), Power: int64(1 + rng.Intn(9))}
+		if (ops[i].Kind == "add" || ops[i].Kind == "update") && rng.Intn(5) == 0 {
+			ops[i].Power = 0 // a plain peer: the chain keeps members without voting power in the set
+			run.Count("ops_with_zero_power_member", 1)
+		}
 		if ops[i].Kind == "batch" {
 			ops[i].Power = int64(1 + rng.Intn(60)) // up to several times the total power of these small sets
 		}
